@@ -47,7 +47,7 @@ VARIANTS = {
     "simasan": ("clang", "clang++", ["-O1", "-fsanitize=address"] + SIMCOV,
                 ["-include", VSIM + "/cprelude.h"], ["-include", VSIM + "/prelude.h"]),
 }
-CSTD = ["-std=c11"]
+CSTD = ["-std=gnu11"]
 CXXSTD = ["-std=c++20", "-DMC_IMPLEM_ENABLE"]
 
 
